@@ -54,10 +54,10 @@ pub fn synth_schema_sdl() -> String {
     format!(
         "enum Color {{ RED GREEN BLUE }}\nscalar Date\n\
          input Point {{ x: Int! y: Int! = 0 label: String tags: [String!] inner: Point pts: [[Point!]] c: Color d: Date f: Float b: Boolean id: ID nl: [Int!]! }}\n\
-         interface Node {{ id: ID! }}\ninterface Named implements Node {{ id: ID! name: String }}\n\
-         type A implements Node & Named {{ id: ID! name: String nick: String a: Int peer: B self: A list: [A!]! nested: [[A]] selfN: A! selfL: [A] selfLN: [A!] selfNL: [A]! nameN: String! names: [String] arg1(x: Int): A arg2(y: Int!, z: Int, l: [Int!], ln: [Int!]!, d: Int! = 1): A }}\n\
-         type B implements Node {{ id: ID! b: Float peer: A peerN: A! peerL: [A] peerLN: [A!] peerNL: [A]! peerNLN: [A!]! peerLL: [[A]] s: String sN: String! sL: [String] i: Int arg1(x: Int): A }}\nunion AB = A | B\n\
-         type Query {{\n  node: Node\n  named: Named\n  a: A\n  b: B\n  ab: AB\n{}}}\n\
+         input Small {{ p: Int! q: Int }}\ninterface Node {{ id: ID! }}\ninterface Named implements Node {{ id: ID! name: String }}\n\
+         type A implements Node & Named {{ id: ID! name: String nick: String a: Int peer: B self: A list: [A!]! nested: [[A]] selfN: A! selfL: [A] selfLN: [A!] selfNL: [A]! nameN: String! names: [String] arg1(x: Int): A arg2(y: Int!, z: Int, l: [Int!], ln: [Int!]!, d: Int! = 1): A leafArg(x: Int, y: Int!): Int }}\n\
+         type B implements Node {{ id: ID! b: Float peer: A peerN: A! peerL: [A] peerLN: [A!] peerNL: [A]! peerNLN: [A!]! peerLL: [[A]] s: String sN: String! sL: [String] i: Int arg1(x: Int): A arg2(q: Int): A leafArg(q: Int): Int }}\nunion AB = A | B\n\
+         type Query {{\n  small(a: Small, l: [Small!]): Int\n  node: Node\n  named: Named\n  a: A\n  b: B\n  ab: AB\n{}}}\n\
          type Mutation {{ m(a: Int): Int }}\ntype Subscription {{ s1: Int s2: Int sa: A }}\n\
          directive @args({}req: Boolean! = true) repeatable on FIELD | QUERY | MUTATION | SUBSCRIPTION | FRAGMENT_DEFINITION | FRAGMENT_SPREAD | INLINE_FRAGMENT\n\
          directive @onQ on QUERY\ndirective @onM on MUTATION\ndirective @onS on SUBSCRIPTION\ndirective @onF on FIELD\n\
@@ -654,6 +654,7 @@ pub fn merge_argument_cases() -> Vec<GDoc> {
     let o = |kv: Vec<(&str, GValue)>| GValue::Obj(kv.into_iter().map(|(k, v)| (k.to_string(), v)).collect());
     let pool: Vec<GValue> = vec![
         GValue::Int(1), GValue::Int(2), GValue::Float("1.5".into()), GValue::Str("a".into()), GValue::Bool(true), GValue::Null,
+        GValue::Float("0.3".into()), GValue::Float("0.30000000000000004".into()), GValue::Float("1e-20".into()), GValue::Float("2e-20".into()), GValue::Float("1.0".into()),
         GValue::Enum("RED".into()), GValue::Var("v".into()), GValue::Var("w".into()),
         GValue::List(vec![]), GValue::List(vec![GValue::Int(1)]), GValue::List(vec![GValue::Int(1), GValue::Int(2)]), GValue::List(vec![GValue::Int(2), GValue::Int(1)]),
         o(vec![]), o(vec![("x", GValue::Int(1))]), o(vec![("x", GValue::Int(1)), ("y", GValue::Int(2))]), o(vec![("y", GValue::Int(2)), ("x", GValue::Int(1))]),
@@ -874,6 +875,160 @@ pub fn merge_fragment_dag_cases(rng: &mut Rng, n: usize) -> Vec<GDoc> {
             defs.push(GDef::Frag { name: format!("D{}", f), tc: "A".into(), dirs: vec![], sels });
         }
         out.push(GDoc(defs));
+    }
+    out
+}
+
+
+/// C10: 2..7 directives on ONE node drawn with repetition from declared non-repeatable, declared
+/// repeatable and undeclared names (so that duplicates of each kind occur next to several others),
+/// on a field, an inline fragment, a fragment spread or the operation.
+pub fn directive_mix_cases(rng: &mut Rng, n: usize) -> Vec<GDoc> {
+    let pool = ["onF", "any", "rep", "zzUnknown", "zzOther", "skip", "onIF", "onFS", "onQ"];
+    let mut out = vec![];
+    for _ in 0..n {
+        let m = rng.range(2, 7);
+        let sub: Vec<&str> = (0..rng.range(2, 4)).map(|_| *rng.pick(&pool)).collect();
+        let ds: Vec<GDir> = (0..m).map(|_| GDir { name: rng.pick(&sub).to_string(), args: vec![] }).collect();
+        let leaf = GSel::Field { alias: None, name: "id".into(), args: vec![], dirs: vec![], sels: vec![] };
+        let mut defs = vec![];
+        let (op_dirs, inner): (Vec<GDir>, Vec<GSel>) = match rng.below(4) {
+            0 => (vec![], vec![GSel::Field { alias: None, name: "id".into(), args: vec![], dirs: ds, sels: vec![] }]),
+            1 => (vec![], vec![GSel::Inline { tc: if rng.pct(50) { Some("A".into()) } else { None }, dirs: ds, sels: vec![leaf.clone()] }]),
+            2 => {
+                defs.push(GDef::Frag { name: "Fd".into(), tc: "A".into(), dirs: vec![], sels: vec![leaf.clone()] });
+                (vec![], vec![GSel::Spread { name: "Fd".into(), dirs: ds }])
+            }
+            _ => (ds, vec![leaf.clone()]),
+        };
+        defs.insert(0, GDef::Op { kind: OpKind::Query, name: Some("Q".into()), vars: vec![], dirs: op_dirs,
+            sels: vec![GSel::Field { alias: None, name: "a".into(), args: vec![], dirs: vec![], sels: inner }] });
+        out.push(GDoc(defs));
+    }
+    out
+}
+
+/// C09 / C04 / C16: the SAME field name selected under two different parent types in one enclosing
+/// selection set (siblings across inline fragments, or a nested selection followed by a sibling),
+/// where the two types declare the field with different arguments (A.arg2(y!, z, l, ln!, d) vs
+/// B.arg2(q)) — both orders, every combination of argument sets.
+pub fn argument_sibling_cases() -> Vec<GDoc> {
+    let i = |n: i64| GValue::Int(n);
+    let argsets: Vec<Vec<(&str, GValue)>> = vec![vec![("y", i(1)), ("ln", GValue::List(vec![]))], vec![("q", i(1))], vec![], vec![("y", i(1)), ("q", i(2)), ("ln", GValue::List(vec![i(1)]))]];
+    let arg2 = |args: &Vec<(&str, GValue)>| GSel::Field { alias: None, name: "arg2".into(),
+        args: args.iter().map(|(k, v)| (k.to_string(), v.clone())).collect(), dirs: vec![], sels: vec![GSel::Field { alias: None, name: "id".into(), args: vec![], dirs: vec![], sels: vec![] }] };
+    let on = |t: &str, s: GSel| GSel::Inline { tc: Some(t.into()), dirs: vec![], sels: vec![s] };
+    let under = |f: &str, s: GSel| GSel::Field { alias: None, name: f.into(), args: vec![], dirs: vec![], sels: vec![s] };
+    let doc = |root: &str, sels: Vec<GSel>| GDoc(vec![GDef::Op { kind: OpKind::SelSet, name: None, vars: vec![], dirs: vec![],
+        sels: vec![GSel::Field { alias: None, name: root.into(), args: vec![], dirs: vec![], sels }] }]);
+    let mut out = vec![];
+    // the same with a LEAF field (no nested selection set is entered between the two occurrences):
+    // A.leafArg(x, y!) vs B.leafArg(q); `node` / `ab` have no such field at all
+    let leafsets: Vec<Vec<(&str, GValue)>> = vec![vec![("x", i(1)), ("y", i(2))], vec![("q", i(1))], vec![("y", i(1))], vec![]];
+    let leaf = |args: &Vec<(&str, GValue)>| GSel::Field { alias: None, name: "leafArg".into(),
+        args: args.iter().map(|(k, v)| (k.to_string(), v.clone())).collect(), dirs: vec![], sels: vec![] };
+    for a1 in &leafsets {
+        for a2 in &leafsets {
+            for flip in [false, true] {
+                let pairs: Vec<(&str, GSel, GSel)> = vec![
+                    ("ab", on("A", leaf(a1)), on("B", leaf(a2))),
+                    ("node", on("A", leaf(a1)), leaf(a2)),            // then a field Node does not have
+                    ("node", on("B", leaf(a1)), on("A", leaf(a2))),
+                    ("a", under("peer", leaf(a1)), leaf(a2)),
+                    ("b", under("peer", leaf(a1)), leaf(a2)),
+                    ("a", on("B", leaf(a1)), leaf(a2)),
+                ];
+                for (root, x, y) in pairs {
+                    out.push(doc(root, if flip { vec![y, x] } else { vec![x, y] }));
+                }
+            }
+        }
+    }
+    for a1 in &argsets {
+        for a2 in &argsets {
+            for flip in [false, true] {
+                let pairs: Vec<(&str, GSel, GSel)> = vec![
+                    ("ab", on("A", arg2(a1)), on("B", arg2(a2))),
+                    ("node", on("A", arg2(a1)), on("B", arg2(a2))),
+                    ("a", under("peer", arg2(a1)), arg2(a2)),          // B.arg2 nested, then A.arg2
+                    ("b", under("peer", arg2(a1)), arg2(a2)),          // A.arg2 nested, then B.arg2
+                    ("a", on("B", arg2(a1)), arg2(a2)),
+                    ("a", under("self", arg2(a1)), arg2(a2)),
+                ];
+                for (root, x, y) in pairs {
+                    out.push(doc(root, if flip { vec![y, x] } else { vec![x, y] }));
+                }
+            }
+        }
+    }
+    out
+}
+
+
+/// C08: object literals for the two-field input type Small { p: Int!  q: Int } with EVERY subset of
+/// the keys {p, q, z (unknown), w (unknown)}, p and q taking good / null / wrong-kind values, as a
+/// direct argument, as a list item and as a lone value at a list position.
+pub fn small_object_cases() -> Vec<GDoc> {
+    let mut out = vec![];
+    let pvals = [GValue::Int(1), GValue::Null, GValue::Str("s".into())];
+    let qvals = [GValue::Int(2), GValue::Null];
+    for mask in 0..16u32 {
+        for pv in &pvals {
+            for qv in &qvals {
+                if mask & 1 == 0 && !matches!(pv, GValue::Int(_)) { continue; }
+                if mask & 2 == 0 && !matches!(qv, GValue::Int(_)) { continue; }
+                let mut kv = vec![];
+                if mask & 4 != 0 { kv.push(("z".to_string(), GValue::Int(3))); }
+                if mask & 1 != 0 { kv.push(("p".to_string(), pv.clone())); }
+                if mask & 8 != 0 { kv.push(("w".to_string(), GValue::Obj(vec![]))); }
+                if mask & 2 != 0 { kv.push(("q".to_string(), qv.clone())); }
+                let obj = GValue::Obj(kv);
+                for (arg, v) in [("a", obj.clone()), ("l", GValue::List(vec![obj.clone()])), ("l", obj.clone())] {
+                    out.push(GDoc(vec![GDef::Op { kind: OpKind::SelSet, name: None, vars: vec![], dirs: vec![],
+                        sels: vec![GSel::Field { alias: None, name: "small".into(), args: vec![(arg.to_string(), v)], dirs: vec![], sels: vec![] }] }]));
+                }
+            }
+        }
+    }
+    out
+}
+
+
+/// C13 (and the rules' own properties): documents that several rules have something to say about at
+/// once, so that what one rule leaves behind can change another's answer: variable graphs in which
+/// one fragment NAME is defined twice with different bodies (different spreads, different variable
+/// usages), with fragment cycles and unknown spreads mixed in.
+pub fn shared_state_cases(rng: &mut Rng, n: usize) -> Vec<GDoc> {
+    let mut out = vec![];
+    for mut d in variable_graph_cases(rng, n) {
+        let names: Vec<String> = d.0.iter().filter_map(|x| match x { GDef::Frag { name, .. } => Some(name.clone()), _ => None }).collect();
+        if names.len() >= 2 {
+            // give the last fragment the name of an earlier one
+            let target = names[rng.below(names.len() - 1)].clone();
+            let last = names[names.len() - 1].clone();
+            for x in d.0.iter_mut() {
+                if let GDef::Frag { name, .. } = x {
+                    if *name == last {
+                        *name = target.clone();
+                    }
+                }
+            }
+            if rng.pct(40) {
+                // spreads of the vanished name now point to the shared one as well
+                fn rn(sels: &mut Vec<GSel>, from: &str, to: &str) {
+                    for s in sels.iter_mut() {
+                        match s {
+                            GSel::Spread { name, .. } => { if name == from { *name = to.to_string(); } }
+                            GSel::Field { sels, .. } | GSel::Inline { sels, .. } => rn(sels, from, to),
+                        }
+                    }
+                }
+                for x in d.0.iter_mut() {
+                    match x { GDef::Op { sels, .. } | GDef::Frag { sels, .. } => rn(sels, &last, &target) }
+                }
+            }
+        }
+        out.push(d);
     }
     out
 }
